@@ -4,6 +4,7 @@ import SctpVerif.Driver.E2E
 import SctpVerif.Driver.Timer
 import SctpVerif.Driver.Assoc
 import SctpVerif.Driver.Hs
+import SctpVerif.Driver.Sd
 import SctpVerif.Driver.PendQ
 import SctpVerif.Driver.RingQ
 import SctpVerif.Driver.Reasm
@@ -28,6 +29,7 @@ structure All where
   e2e : E2E.St := {}
   assoc : Assoc.St := {}
   hs : HsD.St := {}
+  sd : SdD.St := {}
   rto : Tm.RtoSt := {}
   timer : Tm.St := {}
   pend : Pend.St := {}
@@ -52,6 +54,7 @@ def stepComp (a : All) (comp : String) (op impl : List String) : All × Option S
   | "e2e" => let (s, v) := E2E.step a.e2e op impl; ({ a with e2e := s }, none, v)
   | "as" => let (s, r, v) := Assoc.step a.assoc op impl; ({ a with assoc := s }, r, v)
   | "hs" => let (s, r, e) := HsD.step a.hs op impl; ({ a with hs := s }, some r, e.toList)
+  | "sd" => let (s, r, e) := SdD.step a.sd op impl; ({ a with sd := s }, some r, e.toList)
   | "rto" => let (s, r, e) := Tm.rtoStep a.rto op impl; ({ a with rto := s }, some r, e.toList)
   | "timer" => let (s, r, e) := Tm.step a.timer op impl; ({ a with timer := s }, some r, e.toList)
   | "pend" => let (s, r, e) := Pend.step a.pend op impl; ({ a with pend := s }, some r, e.toList)
